@@ -166,6 +166,37 @@ impl World {
         }
     }
 
+    /// The same schemas with trimmed enumeration domains and at most 2 rows per table: every
+    /// instance with up to 2 rows in EACH table read can then be enumerated (two units with a row
+    /// of a child table each, a unit with two rows, dangling keys ...), which the DP / privacy-unit
+    /// checks need more than wide value domains.
+    pub fn compact() -> World {
+        let mut w = World::standard();
+        for t in w.tables.iter_mut() {
+            t.max_rows = 2;
+            for c in t.cols.iter_mut() {
+                let keep: usize = match (t.name, c.name) {
+                    ("users", "id") => 3,
+                    ("orders", "id") | ("orders", "user_id") | ("items", "order_id") => 2,
+                    ("orders", "amount") => 3,
+                    ("items", "price") => 2,
+                    ("items", "qty") => 1,
+                    ("ref", "zone") => 1,
+                    _ => 2,
+                };
+                // keep the extremes of the domain (first values and the last one)
+                if c.domain.len() > keep {
+                    let last = c.domain.last().cloned().unwrap();
+                    c.domain.truncate(keep.saturating_sub(1).max(1));
+                    if keep > 1 {
+                        c.domain.push(last);
+                    }
+                }
+            }
+        }
+        w
+    }
+
     pub fn table(&self, name: &str) -> &TableDef {
         self.tables.iter().find(|t| t.name == name).unwrap_or_else(|| panic!("no table {name}"))
     }
